@@ -785,7 +785,7 @@ func TestGen(t *testing.T) {
 	id := 0
 
 	// ---- class A: owned histories
-	nOwned := vlib.Scale(100, 1500)
+	nOwned := vlib.Scale(85, 1500)
 	for n := 0; n < nOwned; n++ {
 		r := root.Sub()
 		id++
